@@ -123,4 +123,128 @@ example : ((advanceN 3 (Backoff.create false 100000000 1000000000 0) []).advance
 example : ((advanceN 4 (Backoff.create false 100000000 1000000000 0) []).advance 0).2 = 1000000000 := by decide
 example : ((advanceN 0 (Backoff.create false 10000000000 2000000000 0) []).advance 0).2 = 2000000000 := by decide
 
+
+/-! ### whole histories of connection cycles
+
+  One cycle = a connection (attempt) ends — `lasted` is the time it stayed established after a successful
+  CONNACK, `none` if it never got one — and the client computes the wait before the next attempt.  A history
+  is any list of cycles; nothing bounds its length or the pattern of stable / unstable connections. -/
+
+/-- the waits the model computes over a history of cycles (`(lasted, random draw)` per cycle) -/
+def waits : Backoff → List (Option Nat × Nat) → List Nat
+  | _, [] => []
+  | b, (l, r) :: t =>
+    let b1 := b.onConnectionEnd l
+    (b1.advance r).2 :: waits (b1.advance r).1 t
+
+def isStable (stable : Nat) : Option Nat → Bool
+  | some d => decide (d > stable)
+  | none => false
+
+/-- the specification: the wait is `min (base * 2^j) max`, `j` = number of cycles since the last stable
+    connection (or since the start) -/
+def specWaits (base max stable : Nat) : Nat → List (Option Nat × Nat) → List Nat
+  | _, [] => []
+  | j, (l, _) :: t =>
+    let j' := if isStable stable l then 0 else j
+    min (base * 2 ^ j') max :: specWaits base max stable (j' + 1) t
+
+/-- pointwise `≤` of two lists of the same length -/
+def AllLe : List Nat → List Nat → Prop
+  | [], [] => True
+  | a :: as, b :: bs => a ≤ b ∧ AllLe as bs
+  | _, _ => False
+
+theorem onConnectionEnd_next (b : Backoff) (l : Option Nat) (j : Nat) (hb : b.base ≤ b.max)
+    (hn : b.next = min (b.base * 2 ^ j) b.max) :
+    let b1 := b.onConnectionEnd l
+    b1.next = min (b.base * 2 ^ (if isStable b.stable l then 0 else j)) b.max ∧
+      b1.base = b.base ∧ b1.max = b.max ∧ b1.jitter = b.jitter ∧ b1.stable = b.stable := by
+  cases l with
+  | none => simp [Backoff.onConnectionEnd, isStable, hn]
+  | some d =>
+    simp only [Backoff.onConnectionEnd, isStable]
+    by_cases h : d > b.stable
+    · simp [h]; omega
+    · simp [h, hn]
+
+theorem advance_next (b : Backoff) (r j : Nat) (hm : b.max ≤ durationMaxNs)
+    (hn : b.next = min (b.base * 2 ^ j) b.max) :
+    (b.advance r).1.next = min (b.base * 2 ^ (j + 1)) b.max := by
+  have h1 : (b.advance r).1.next = min (2 * b.next) b.max := by
+    simp only [Backoff.advance]; exact clamp_satDouble b b.next hm
+  rw [h1, hn, Nat.pow_succ, ← Nat.mul_assoc]
+  omega
+
+/-- **Every history, no jitter.**  Over any sequence of connection cycles the waits are exactly
+    `min (base * 2^j) max` with `j` counting the cycles since the last stable connection: the sequence doubles
+    to the maximum, restarts from the base after a stable connection and only then. -/
+theorem waits_eq_spec : ∀ (hist : List (Option Nat × Nat)) (b : Backoff) (j : Nat), b.jitter = false →
+    b.base ≤ b.max → b.max ≤ durationMaxNs → b.next = min (b.base * 2 ^ j) b.max →
+    waits b hist = specWaits b.base b.max b.stable j hist := by
+  intro hist
+  induction hist with
+  | nil => intros; rfl
+  | cons c t ih =>
+    obtain ⟨l, r⟩ := c
+    intro b j hj hb hm hn
+    have h1 := onConnectionEnd_next b l j hb hn
+    simp only [] at h1
+    obtain ⟨h1n, h1b, h1m, h1j, h1s⟩ := h1
+    have hf := advance_fields (b.onConnectionEnd l) r
+    have h2 := advance_next (b.onConnectionEnd l) r (if isStable b.stable l then 0 else j) (by rw [h1m]; exact hm)
+      (by rw [h1n, h1b, h1m])
+    simp only [waits, specWaits]
+    rw [ih (b.onConnectionEnd l |>.advance r).1 ((if isStable b.stable l then 0 else j) + 1)
+      (by rw [hf.2.2.1, h1j]; exact hj) (by rw [hf.1, hf.2.1, h1b, h1m]; exact hb) (by rw [hf.2.1, h1m]; exact hm)
+      (by rw [hf.1, hf.2.1]; exact h2)]
+    rw [hf.1, hf.2.1, hf.2.2.2, h1b, h1m, h1s]
+    congr 1
+    simp only [Backoff.advance, h1j, hj]
+    simpa using h1n
+
+/-- **Every history, with jitter.**  Each wait is at most the period the no-jitter sequence would use
+    (hence never above the maximum), whatever the random draws. -/
+theorem waits_le_spec : ∀ (hist : List (Option Nat × Nat)) (b : Backoff) (j : Nat),
+    b.base ≤ b.max → b.max ≤ durationMaxNs → b.next = min (b.base * 2 ^ j) b.max →
+    AllLe (waits b hist) (specWaits b.base b.max b.stable j hist) := by
+  intro hist
+  induction hist with
+  | nil => intros; trivial
+  | cons c t ih =>
+    obtain ⟨l, r⟩ := c
+    intro b j hb hm hn
+    have h1 := onConnectionEnd_next b l j hb hn
+    simp only [] at h1
+    obtain ⟨h1n, h1b, h1m, h1j, h1s⟩ := h1
+    have hf := advance_fields (b.onConnectionEnd l) r
+    have h2 := advance_next (b.onConnectionEnd l) r (if isStable b.stable l then 0 else j) (by rw [h1m]; exact hm)
+      (by rw [h1n, h1b, h1m])
+    have h3 := ih (b.onConnectionEnd l |>.advance r).1 ((if isStable b.stable l then 0 else j) + 1)
+      (by rw [hf.1, hf.2.1, h1b, h1m]; exact hb) (by rw [hf.2.1, h1m]; exact hm)
+      (by rw [hf.1, hf.2.1]; exact h2)
+    rw [hf.1, hf.2.1, hf.2.2.2, h1b, h1m, h1s] at h3
+    simp only [waits, specWaits, AllLe]
+    refine ⟨?_, h3⟩
+    have := wait_within_period (b.onConnectionEnd l) r
+    rw [h1n] at this
+    exact this
+
+/-- the configured client starts every history in the hypotheses of the two theorems (j = 0) -/
+theorem create_starts_history (jitter : Bool) (base max stable : Nat) (hb : base ≤ durationMaxNs) (hm : max ≤ durationMaxNs) :
+    let b := Backoff.create jitter base max stable
+    b.base ≤ b.max ∧ b.max ≤ durationMaxNs ∧ b.next = min (b.base * 2 ^ 0) b.max := by
+  have hc := create_normalizes jitter base max stable
+  simp only [] at hc
+  have hd : durationMaxNs = 18446744073709551615999999999 := by decide
+  refine ⟨hc.2.2.2.1, ?_, ?_⟩
+  · rw [hc.2.1, hd]; rw [hd] at hb hm; simp only [effMax, Nat.max_def]; split <;> split <;> omega
+  · rw [hc.2.2.1, hc.1, hc.2.1]; have := hc.2.2.2.1; rw [hc.1, hc.2.1] at this; omega
+
+/-- non-vacuity: base 1 s, max 8 s, stable 30 s; cycles: unstable ×4 (1,2,4,8 s), a 31 s connection (back to 1 s),
+    a 30 s connection (not longer than the stability period: 2 s), never connected (4 s) -/
+example : waits (Backoff.create false 1000000000 8000000000 30000000000)
+    [(none, 0), (some 5, 0), (none, 0), (none, 0), (some 31000000000, 0), (some 30000000000, 0), (none, 0)] =
+    [1000000000, 2000000000, 4000000000, 8000000000, 1000000000, 2000000000, 4000000000] := by decide
+
 end GV.Props.C19
